@@ -44,6 +44,10 @@ CLAIMED = {
          "Decides structural clauses of C14: handles are allocated only in newFromEntries, proto keysets become entries only after Validate()==nil; validateKey accepts exactly {TINK,LEGACY,RAW,CRUNCHY}x{ENABLED,DISABLED,DESTROYED} (every enum constant and an out-of-range probe folded), nil key data rejected; Validate rejects nil/empty keysets, repeated IDs (map fed on every iteration), non-ENABLED or second primaries and succeeds only with an ENABLED primary found; the strength validators reject exactly below the library minimums (AES {16,32}, RSA >=2048 & e=65537, ECDSA curve/hash table incl. every weaker combination, HKDF-PRF, HMAC-PRF, CMAC-PRF) and constructors pass through them. Run-time panic freedom of all parsers and behavioural self-consistency are not decided.",
          "Trusted: go/ssa; constant propagation over pure validator functions; guard idioms of Validate.",
          "DESIGN.md §4 C14"),
+ "C09": ("dominance/order and value-identity rule for VerifiedJWT construction; constant folding of validateHeader over its 64-row truth table and of validateFieldPresence; normalised comparison guards of validateTimestamps; census of clock reads, base64 alphabets and kid encoders; type-level JWK export arms",
+         "Decides structural clauses of the JWT accept decision: a VerifiedJWT exists only after signature/MAC verification of the content, header validation of that same content and Validator.Validate of that same RawJWT, in that order; validateHeader's decision equals the rule (alg equal, no crit, kid rules) on all 64 input combinations; the presence matrix on all 8; the three timestamp rejections have exactly the stated comparison direction and skew sign with 'now' sampled per call; skew <= 10 min; base64url only; every key-ID kid is base64url of the 4-byte big-endian ID on all three sides; JWK export handles only public types and filters by Enabled. JSON/base64 decoding and claim round trips are not decided.",
+         "Trusted: go/ssa; structpb accessors; time.Time.After/Add semantics.",
+         "DESIGN.md §4 C09"),
 }
 
 NOT_APPLICABLE = {
